@@ -144,6 +144,7 @@ def execute(scn):
     base = {}
     base_pn, base_tp = {}, {}
     tp_conflict = set()
+    pn_conflict = set()
     solo_failed = False
     for ti, p in enumerate(per):
         stream = kernel.merge([p], [])
@@ -157,6 +158,9 @@ def execute(scn):
             break
         for tid, lst in out.items():
             base.setdefault(tid, []).extend(lst)
+        for k, v in pn.items():
+            if k in base_pn and base_pn[k] != v:
+                pn_conflict.add(k)      # two threads name the same pid differently: last writer wins, by design
         base_pn.update(pn)
         for k, v in tp.items():
             if k in base_tp and base_tp[k] != v:
@@ -217,8 +221,8 @@ def execute(scn):
                               'detail': 'schedule %d, tid %d, trace #%d: solo %r, merged %r' % (
                                   si, tid, j, b[j] if j < len(b) else None, g[j] if j < len(g) else None)})
                 break
-        if pn != base_pn:
-            diff = {k: (base_pn.get(k), pn.get(k)) for k in set(base_pn) | set(pn) if base_pn.get(k) != pn.get(k)}
+        if {k: v for k, v in pn.items() if k not in pn_conflict} != {k: v for k, v in base_pn.items() if k not in pn_conflict}:
+            diff = {k: (base_pn.get(k), pn.get(k)) for k in set(base_pn) | set(pn) if base_pn.get(k) != pn.get(k) and k not in pn_conflict}
             viols.append({'tag': 'learned-names-differ', 'sig': 'pids_names',
                           'detail': 'schedule %d: pid -> (solo, merged) %r' % (si, diff)})
         if {k: v for k, v in tp.items() if k not in tp_conflict} != {k: v for k, v in base_tp.items() if k not in tp_conflict}:
